@@ -137,10 +137,16 @@ def expandBlocks (el : Nat) (disps : List Nat) (segLen : Nat) : List Nat :=
 /-- dsizes[i] = Π_{j ≥ i} shape[j] (for record variables shape[0] is excluded by the callers) -/
 def dsizes (shape : List Nat) (i : Nat) : Nat := prod (shape.drop i)
 
+/-- Σ_{j<k} f j  (the `for (i=1; i<ndims-1; i++) *offset += …` loop) -/
+def sumRange : Nat → (Nat → Nat) → Nat
+  | 0, _ => 0
+  | k + 1, f => f 0 + sumRange k (fun j => f (j + 1))
+
 def firstOffset (v : VarLay) (start : List Nat) : Nat :=
   let n := v.shape.length
   if n = 0 then v.begin else
-  let mid := (List.range (n - 2)).foldl (fun acc j => acc + start.getD (j + 1) 0 * dsizes v.shape (j + 2)) 0
+  -- for (i=1; i<ndims-1; i++) *offset += start[i] * varp->dsizes[i+1];
+  let mid := sumRange (n - 2) (fun j => start.getD (j + 1) 0 * dsizes v.shape (j + 2))
   if v.isRec then
     let o := (if n > 1 then start.getD (n - 1) 0 else 0) + mid
     o * v.xsz + start.getD 0 0 * v.recsize + v.begin
